@@ -3,11 +3,14 @@
 T2: the same history is run on the real objects and on the Lean heap model (`hist.run`); both sides
 emit the same integer encoding of the observation tokens (which closure each constraint entry holds,
 which cached polynomial / matrix objects an evaluation used, table sizes / allocations, content
-versions of every caller cell) after every operation.
+versions of every caller cell, and "no other library-level or per-device mutable state changed") after
+every operation.
 Oracle (the property itself, never consults the model): after every operation of the history the
 behavioural fingerprint of the used objects is compared with the fingerprint of a twin constructed
 from the same description before the history started, the operation's own result is compared with
-the result of the same call on a twin constructed just now, and every array / list / dict the caller
+the result of the same call on its own fresh twin (computed before the history starts, default-option
+calls first, so that leaks through library-level state cannot contaminate the reference), and every
+array / list / dict the caller
 passed in (constructor arguments and call arguments) is compared with a deep copy taken beforehand.
 """
 import os, sys, json, copy, math
@@ -17,6 +20,7 @@ for _v in ('OMP_NUM_THREADS', 'OPENBLAS_NUM_THREADS', 'MKL_NUM_THREADS'):
   os.environ.setdefault(_v, '1')
 from .. import common as C, gen, build
 from .. import gen_history as H
+from .. import scipy_guard as SG
 from ..check import Prop, Op
 
 
@@ -92,60 +96,127 @@ def tok_dict(c, reg):
   return [-70, 1 if c.get('type') == 'eq' else 0] + tok(c.get('fun'), reg) + tok(c.get('jac'), reg)
 
 
-class Exec:
-  """builds the world of a case and executes its operations; keeps handles on all caller data."""
+def inst_snapshot(obj):
+  """the instance fields of a device object (own __dict__; an adaptor's __getattr__ delegation is not followed)."""
+  return {k: H.snap(v) for k, v in vars(obj).items()}
 
-  def __init__(self, case, clear=True, only=None):
-    """`only=k`: a twin that will execute operation k alone (only its call arguments are created)."""
+
+def inst_changed(obj, snp):
+  cur = vars(obj)
+  return list(cur.keys()) != list(snp.keys()) or any(not H.same(cur[k], snp[k]) for k in snp)
+
+
+class Exec:
+  """builds the world of a case and executes its operations; keeps handles on all caller data.
+  Operations are indexed history-first: 0..H-1 the history, H.. the `early` operations (executed on a device right
+  after it has been constructed, before its parents exist)."""
+
+  def __init__(self, case, clear=True, only=None, early=True):
+    """`only=k`: a twin that will execute operation k alone (only its call arguments are created, in fresh arrays);
+    `early=False`: the early operations are not executed (twins)."""
     U = utils()
     if clear:
       U.sustainment_matrix.cache_clear(); U.power_matrix.cache_clear()
     self.case = case
     self.n = case['n']
+    self.only = only
+    self.ops = list(case['ops']) + list(case.get('early', []))
+    self.nhist = len(case['ops'])
     self.miss_base = 0
-    self.walk = H.Walk(case['tree'], case['n'], True)
+    self.skipped = 0
+    self.g0 = None
+    self.inst0 = {}
+    self.args = [None]*len(self.ops)
+    self.early_results = {}
+    self._early_cells = {}
+    self._probes = {}
+    self.last_cons = []
+    self._do_early = early and only is None and bool(case.get('early'))
+    self.walk = None
+    self.walk = H.Walk(case['tree'], case['n'], True, self._built)
     self.world = self.walk.world(case['ncaller'])
     self.live = self.walk.live
     self.cells = self.walk.cells
-    self.args = []
-    self._probes = {}
-    for k, op in enumerate(case['ops']):
-      self.args.append(self.make_args(op) if only is None or only == k else None)
+    for k in range(self.nhist):
+      if only is None or only == k:
+        self.args[k] = self.make_args(k, self.cells)
+    for k in range(self.nhist, len(self.ops)):
+      if k in self._early_cells:
+        self.cells += self._early_cells[k]
+      elif only is None or only == k:
+        self.args[k] = self.make_args(k, self.cells)
     assert only is not None or len(self.cells) == case['ncaller'], 'cells %d != %d' % (len(self.cells), case['ncaller'])
 
+  def _built(self, walk, hid):
+    """construction hook: device `hid` exists now, its parents do not."""
+    self.live = walk.live
+    self.walk = walk
+    obj = walk.live.get(hid)
+    if obj is not None and self.only is None:
+      self.inst0[hid] = (obj, inst_snapshot(obj))
+    if not self._do_early:
+      return
+    for k in range(self.nhist, len(self.ops)):
+      if self.ops[k]['t'] == hid:
+        cells = []
+        self.args[k] = self.make_args(k, cells)
+        self._early_cells[k] = cells
+        res = self.run_op(k)
+        self.early_results[k] = res if res[0] != 'ok' else ('ok', canon(res[1]))
+        self.scribble(k, res)
+
   # -- caller-owned call arguments (created up front: the caller owns them for the whole history)
-  def arr(self, S, rows, shape):
+  def arr(self, S, rows, shape, as_float=False):
     a = build.arr(S)
+    if as_float:
+      a = a.astype(float)
     return a.reshape(rows*self.n) if shape == 'flat' else a.reshape(rows, self.n)
 
-  def make_args(self, op):
+  def make_args(self, k, cells):
+    op = self.ops[k]
     o = op['o']
     cls = type(self.live[op['t']]).__name__ if 't' in op else ''
     def reg(name, obj):
-      self.cells.append([name, obj, H.snap(obj), cls]); return obj
+      cells.append([name, obj, H.snap(obj), cls]); return obj
+    def flow(name='s'):
+      shape = H.buf_shape(op) if o != 'step' else 'mat'
+      if 'buf' in op and self.only is None:
+        root = op['buf']
+        return self.args[root][H.S_POS[self.ops[root]['o']]]      # the very same ndarray; written in place before the call
+      return reg(name, self.arr(op['s'], op['rows'], shape, bool(op.get('isbuf') or 'buf' in op)))
+    opts = lambda: reg('solver_options', None if op.get('opts') is None else dict(op['opts']))
     if o in ('cost', 'deriv'):
-      return [reg('s', self.arr(op['s'], op['rows'], op['shape'])), reg('p', build.price(op['p']))]
+      return [flow(), reg('p', build.price(op['p']))]
     if o in ('hess', 'project', 'map'):
-      return [reg('s', self.arr(op['s'], op['rows'], op['shape']))]
+      return [flow()]
     if o in ('callFun', 'callJac'):
-      return [reg('x', self.arr(op['s'], op['rows'], 'flat'))]
+      return [flow('x')]
     if o == 'solve':
-      return [reg('p', build.price(op['p'])), reg('s0', self.arr(op['s0'], op['rows'], 'mat') if op['s0'] is not None else None),
-              reg('solver_options', {'maxiter': op['maxiter']})]
+      return [reg('p', build.price(op['p'])), reg('s0', self.arr(op['s0'], op['rows'], 'mat') if op['s0'] is not None else None), opts()]
     if o == 'step':
-      return [reg('p', build.price(op['p'])), reg('s', self.arr(op['s'], op['rows'], 'mat')), reg('solver_options', {'maxiter': 20})]
+      return [reg('p', build.price(op['p'])), flow(), opts()]
+    if o == 'uproject':
+      return [reg('point', self.arr(op['s'], op['rows'], 'flat')), reg('x0', build.arr(op['x0'])), opts()]
     return []
 
   def run_op(self, k):
-    """execute operation k; returns ('ok', result) / ('exc', type name)."""
+    """execute operation k; returns ('ok', result) / ('exc', type name) / ('skip', None)."""
     dk = C.repo(); U = utils()
-    op = self.case['ops'][k]; a = self.args[k]; o = op['o']
+    op = self.ops[k]; a = self.args[k]; o = op['o']
     try:
       if o == 'cacheClear':
         self.miss_base += U.sustainment_matrix.cache_info().misses + U.power_matrix.cache_info().misses
         U.sustainment_matrix.cache_clear(); U.power_matrix.cache_clear()
         return ('ok', None)
       d = self.live[op['t']]
+      if 'buf' in op and self.only is None:
+        # the caller overwrites its own buffer with the new flow, in place, and hands the same ndarray over again
+        pos = H.S_POS[o]
+        np().copyto(a[pos], self.arr(op['s'], op['rows'], H.buf_shape(op) if o != 'step' else 'mat'))
+        self.cells[op['a'][pos]][2] = H.snap(a[pos])
+      if o in ('solve', 'step', 'uproject') and not SG.safe_to_solve(d):
+        self.skipped += 1
+        return ('skip', None)           # SciPy's SLSQP may abort the interpreter on this family (vk/scipy_guard.py)
       if o == 'cost': return ('ok', d.cost(a[0], a[1]))
       if o == 'deriv': return ('ok', d.deriv(a[0], a[1]))
       if o == 'hess': return ('ok', d.hess(a[0]))
@@ -167,16 +238,53 @@ class Exec:
         ld = d.leaf_devices()
         return ('ok', [ld, d.get(ld[-1][0].split('.')[-1]), d.find('.*')])
       if o == 'solve':
-        x, res = dk.solve(d, a[0], a[1], solver_options=a[2])
+        x, res = dk.solve(d, a[0], a[1]) if a[2] is None else dk.solve(d, a[0], a[1], solver_options=a[2])
         return ('ok', [x, None if res is None else int(res.status)])
       if o == 'step':
-        x, res = dk.step(d, a[0], a[1], pf_(op['stepsize']), solver_options=a[2])
+        st = pf_(op['stepsize'])
+        x, res = dk.step(d, a[0], a[1], st) if a[2] is None else dk.step(d, a[0], a[1], st, solver_options=a[2])
+        return ('ok', [x, int(res.status)])
+      if o == 'uproject':
+        x, res = (dk.project(a[0], a[1], d.bounds, d.constraints) if a[2] is None else
+                  dk.project(a[0], a[1], d.bounds, d.constraints, solver_options=a[2]))
         return ('ok', [x, int(res.status)])
       raise AssertionError('unknown op ' + o)
     except AssertionError:
       raise
     except Exception as e:
       return ('exc', type(e).__name__)
+
+  def scribble(self, k, res):
+    """the caller does what it likes with what it was handed back: overwrites returned arrays, reorders / shortens
+    returned lists, edits returned dicts.  Only objects the API creates for the caller are touched (not the dicts of
+    the caller's own constraint list, not `Device.bounds`, which is documented internal state, not `map`'s row views
+    of the caller's own flow array)."""
+    op = self.ops[k]
+    if not op.get('mut') or res[0] != 'ok' or res[1] is None:
+      return
+    n_ = np(); o = op['o']; r = res[1]
+    def over(x):
+      if isinstance(x, n_.ndarray) and x.flags.writeable and x.dtype.kind in 'fiu':
+        x[...] = 7
+    def shuffle(l):
+      if isinstance(l, list):
+        l.reverse()
+        if len(l) > 1:
+          l.pop()
+    if o in ('deriv', 'hess', 'project', 'callJac'):
+      over(r)
+    elif o in ('solve', 'step', 'uproject'):
+      over(r[0])
+    elif o == 'bounds':
+      over(r[1]); over(r[2])
+    elif o in ('readConstraints', 'map'):
+      shuffle(r)
+    elif o == 'leafDevices':
+      shuffle(r[0]); shuffle(r[2])
+    elif o == 'toDict' and isinstance(r, dict):
+      r['__scribbled__'] = True
+      for key in list(r.keys())[:1]:
+        del r[key]
 
   # -- observation tokens (non-perturbing: attributes and cache_info only)
   def enc_state(self):
@@ -189,6 +297,10 @@ class Exec:
     si, pi = U.sustainment_matrix.cache_info(), U.power_matrix.cache_info()
     out += [-22, si.currsize, pi.currsize, self.miss_base + si.misses + pi.misses, -23]
     out += self.cell_versions(range(len(self.cells)))
+    # state the model does not have: library-level mutable globals, instance fields of the device objects
+    g = 0 if (self.g0 is None or differ(global_state(), self.g0) is None) else 1
+    i = 1 if any(inst_changed(obj, snp) for obj, snp in self.inst0.values()) else 0
+    out += [-24, g, i]
     return out
 
   def cell_versions(self, ids):
@@ -223,7 +335,7 @@ class Exec:
     return cap + seen
 
   def enc_out(self, k, res):
-    op = self.case['ops'][k]; o = op['o']
+    op = self.ops[k]; o = op['o']
     if o == 'cacheClear':
       return [-1, 1, -3, -4, -5, -6, -7, -8, 0]
     dev = H.w_find(self.world['root'], op['t'])
@@ -242,6 +354,9 @@ class Exec:
       if o in ('solve', 'step'):
         for c in live.constraints:
           cons += tok_dict(c, reg)
+    elif o in ('solve', 'uproject'):       # the all-fixed shortcut of solve / utils.project: bounds and constraints only
+      for c in live.constraints:
+        cons += tok_dict(c, reg)
     elif o == 'readConstraints':
       for c in self.last_cons:
         cons += tok_dict(c, reg)
@@ -261,21 +376,29 @@ class Exec:
     return [-1, found, -3] + polys + [-4] + mats + [-5] + refs + [-6] + args + [-7] + cons + [-8] + clo
 
   def stream(self):
-    """token stream of the history; stops before the first evaluation that raises inside the library
-    (a partial evaluation — only part of the leaves ran — is outside the model); `self.ran` = ops compared."""
+    """token stream of the history.  Stops before the first evaluation that raises inside the library (a partial
+    evaluation — only part of the leaves ran — is not compared); operations the SciPy guard refuses are left out
+    (`self.kept` = indices of the operations compared)."""
+    self.g0 = global_state()
     out = self.enc_state()
-    self.ran = 0
-    for k in range(len(self.case['ops'])):
+    self.kept = []
+    self.truncated = False
+    for k in range(self.nhist):
       res = self.run_op(k)
-      if res[0] == 'exc' and res[1] != 'OptimizationException' and self.case['ops'][k]['o'] in ('cost', 'deriv', 'hess', 'solve', 'step'):
+      if res[0] == 'skip':
+        continue
+      if res[0] == 'exc' and res[1] != 'OptimizationException' and self.ops[k]['o'] in ('cost', 'deriv', 'hess', 'solve', 'step'):
+        self.truncated = True
         break
       out += self.enc_out(k, res) + self.enc_state()
-      self.ran += 1
+      self.scribble(k, res)
+      self.kept.append(k)
     return out
 
   def model_line(self):
     ops = []
-    for op in self.case['ops'][:self.ran]:
+    for k in self.kept:
+      op = self.ops[k]
       m = {'o': op['o']}
       for key in ('t', 'i', 'a'):
         if key in op:
@@ -413,14 +536,40 @@ def watch_ids(world):
 
 
 def global_state():
-  """mutable defaults and class-level mutable attributes of the library (must stay as shipped)."""
-  dk = C.repo()
-  from device_kit import functions as Fm
-  S_ = sys.modules['device_kit.solve']; U_ = sys.modules['device_kit.utils']
-  return canon({
-    'ADevice._constraints': dk.ADevice._constraints, 'SumFunction.functions': Fm.SumFunction.functions, 'X2D.functions': Fm.X2D.functions,
-    'SubBalancedDeviceSet.__init__': list(dk.SubBalancedDeviceSet.__init__.__defaults__), 'solve': list(S_.solve.__defaults__),
-    'step': list(S_.step.__defaults__), 'utils.project': list(U_.project.__defaults__)})
+  """every library-level mutable container: module globals, mutable default arguments of module functions and
+  methods, class-level mutable attributes — of every loaded device_kit module (the lru tables are modelled separately)."""
+  C.repo()
+  n_ = np()
+  import types
+  MUT = (dict, list, set, n_.ndarray)
+  out = {}
+  def defaults(name, fn):
+    fn = getattr(fn, '__func__', fn)
+    fn = getattr(fn, 'fget', fn) if isinstance(fn, property) else fn
+    d = getattr(fn, '__defaults__', None) or ()
+    kd = getattr(fn, '__kwdefaults__', None) or {}
+    vals = [v for v in list(d) + list(kd.values()) if isinstance(v, MUT)]
+    if vals:
+      out[name + '()'] = canon(vals)
+  for mname, mod in sorted(sys.modules.items()):
+    if not (mname == 'device_kit' or mname.startswith('device_kit.')) or mod is None:
+      continue
+    for k, v in sorted(vars(mod).items()):
+      if k.startswith('__'):
+        continue
+      if isinstance(v, MUT):
+        out[mname + '.' + k] = canon(v)
+      elif isinstance(v, types.FunctionType) and v.__module__ == mname:
+        defaults(mname + '.' + k, v)
+      elif isinstance(v, type) and v.__module__ == mname:
+        for ck, cv in sorted(vars(v).items()):
+          if ck.startswith('__') and ck != '__init__':
+            continue
+          if isinstance(cv, MUT):
+            out['%s.%s.%s' % (mname, k, ck)] = canon(cv)
+          elif isinstance(cv, (types.FunctionType, staticmethod, classmethod, property)):
+            defaults('%s.%s.%s' % (mname, k, ck), cv)
+  return out
 
 
 BAD_BOUNDS = [
@@ -559,7 +708,11 @@ def helper_probe():
   return out
 
 
-def run_oracle(case):
+def result_form(res):
+  return canon(res[1]) if res[0] == 'ok' else ('SKIP' if res[0] == 'skip' else 'EXC:' + res[1])
+
+
+def run_oracle(case, stats=None):
   if case.get('kind') == 'ctor-probe':
     return ctor_probe() + helper_probe()
   if case.get('kind') == 'regions':
@@ -567,39 +720,74 @@ def run_oracle(case):
   fails = []
   def fail(kind, op, cls, detail):
     fails.append({'key': {'kind': kind, 'op': op, 'cls': cls}, 'detail': detail})
+  U = utils()
+  U.sustainment_matrix.cache_clear(); U.power_matrix.cache_clear()
   g0 = global_state()
-  twin0 = Exec(case, clear=True)              # pristine reference: built and fingerprinted before anything is used
+  # reference answers: every operation of the case on its own freshly constructed twin (fresh argument arrays), computed
+  # BEFORE anything is used, calls relying on default options first — so a leak through library-level state
+  # (shared default dicts, cached arrays, class attributes) cannot also contaminate the reference
+  allops = list(case['ops']) + list(case.get('early', []))
+  nh = len(case['ops'])
+  R = {}
+  for k in sorted(range(len(allops)), key=lambda k: (1 if allops[k].get('opts') else 0, k)):
+    if allops[k]['o'] == 'cacheClear':
+      continue
+    tw = Exec(case, clear=False, only=k, early=False)
+    R[k] = result_form(tw.run_op(k))
+  twin0 = Exec(case, clear=False, early=False)      # pristine reference for the behavioural fingerprint
   hids = watch_ids(twin0.world)
   F0 = fingerprint(twin0, hids)
-  used = Exec(case, clear=False)
+  used = Exec(case, clear=False, early=True)
   root_cls = type(used.live[used.world['root']['id']]).__name__
+  def label(q):
+    return '%s(%s%s%s)' % (q['o'], q.get('t', ''), ', same buffer as op %d' % q['buf'] if 'buf' in q else '', ', result scribbled' if q.get('mut') else '')
+  def cells_ok(o, cls, hist, how=''):
+    for ci, c in enumerate(used.cells):
+      if not H.same(c[1], c[2]):
+        fail('caller-data-mutated', o, cls, 'history %s%s: caller-owned %s (cell %d, passed to %s) changed from %r to %r' % (hist, how, c[0], ci, c[3], c[2], c[1]))
+        return False
+    return True
   for c in used.cells[:used.walk.nctor]:
     if not H.same(c[1], c[2]):
       fail('caller-data-mutated', 'construct', c[3], 'constructing %s changed the caller\'s %s from %r to %r' % (c[3], c[0], c[2], c[1]))
   if fails:
     return fails
+  # operations performed on a child before its parents existed
+  early_txt = ''
+  for k in range(nh, len(allops)):
+    q = allops[k]
+    got = used.early_results.get(k)
+    if got is None:
+      continue
+    got = got[1] if got[0] == 'ok' else ('SKIP' if got[0] == 'skip' else 'EXC:' + got[1])
+    cls = type(used.live[q['t']]).__name__
+    early_txt += '[%s right after device %s was constructed] ' % (label(q), q['t'])
+    d = differ(got, R[k], 1e-9, 'result')
+    if d:
+      fail('behaviour-changed', q['o'], cls, '%s on device %s right after it was constructed (before its parents) answers differently '
+           'from the same call on a complete fresh twin: %s' % (label(q), q['t'], d))
+      return fails
+  if not cells_ok('construct', root_cls, early_txt or 'construction'):
+    return fails
   ops = case['ops']
   for k, op in enumerate(ops):
     o = op['o']
     cls = type(used.live[op['t']]).__name__ if 't' in op else '<cache>'
-    hist = ' -> '.join('%s(%s)' % (q['o'], q.get('t', '')) for q in ops[:k + 1])
+    hist = early_txt + ' -> '.join(label(q) for q in ops[:k + 1])
     res = used.run_op(k)
+    if res[0] == 'skip' and stats is not None:
+      stats['scipy_unsafe_skipped'] += 1
     # (1) caller data
-    for ci, c in enumerate(used.cells):
-      if not H.same(c[1], c[2]):
-        fail('caller-data-mutated', o, cls, 'history %s: caller-owned %s (cell %d, passed to %s) changed from %r to %r' % (hist, c[0], ci, c[3], c[2], c[1]))
-        return fails
-    # (2) the same call on a twin constructed just now
+    if not cells_ok(o, cls, hist):
+      return fails
+    # (2) the answer of this call vs the same call on a fresh twin (reference computed before the history)
     if o != 'cacheClear':
-      tw = Exec(case, clear=False, only=k)
-      rt = tw.run_op(k)
-      a = canon(res[1]) if res[0] == 'ok' else 'EXC:' + res[1]
-      b = canon(rt[1]) if rt[0] == 'ok' else 'EXC:' + rt[1]
-      d = differ(a, b, 1e-7 if o in ('solve', 'step', 'hess') else 1e-9, 'result')
+      d = differ(result_form(res), R[k], 1e-7 if o in ('solve', 'step', 'hess', 'uproject') else 1e-9, 'result')
       if d:
         fail('behaviour-changed', o, cls, 'history %s: the last call answers differently on the used object than on a fresh twin: %s' % (hist, d))
         return fails
-    # (3) behaviour of the used objects vs the pristine reference (fingerprinting is itself a burst of reads, so half
+    used.scribble(k, res)
+    # (3) behaviour of the used objects vs the pristine reference (fingerprinting is itself a burst of reads, so part
     #     of the cases only do it after the last operation and let the history run undisturbed)
     mode = case.get('fp', 'every')
     if k < len(ops) - 1 and (mode == 'end' or (mode == 'sparse' and k % 5 != 4)):
@@ -609,20 +797,18 @@ def run_oracle(case):
       fail('behaviour-changed', o, cls, 'history %s on a %s: behaviour now differs from a freshly constructed twin at %s' % (hist, root_cls, d))
       return fails
     # (1') the fingerprint itself only reads (cost, deriv, bounds, constraints + their functions, to_dict)
-    for ci, c in enumerate(used.cells):
-      if not H.same(c[1], c[2]):
-        fail('caller-data-mutated', 'readConstraints', root_cls, 'history %s, then reading cost / deriv / bounds / constraints (and calling their functions) / '
-             'to_dict of the devices %s: caller-owned %s (cell %d, passed to %s) changed from %r to %r' % (hist, hids, c[0], ci, c[3], c[2], c[1]))
-        return fails
+    if not cells_ok('readConstraints', root_cls, hist, ', then reading cost / deriv / bounds / constraints (and calling their functions) / to_dict of the devices %s' % hids):
+      return fails
   # (4) global state: a twin constructed after the history must behave like the pristine one
-  tw = Exec(case, clear=False)
+  tw = Exec(case, clear=False, early=False)
   d = differ(fingerprint(tw, hids), F0, 1e-9, 'fingerprint')
   if d:
     fail('behaviour-changed', 'construct-after-history', root_cls, 'a twin constructed after the history %s differs from one constructed before it at %s' %
-         (' -> '.join(q['o'] for q in ops), d))
+         (' -> '.join(label(q) for q in ops), d))
   d = differ(global_state(), g0, 1e-9, 'globals')
   if d:
-    fail('behaviour-changed', 'globals', '<global>', 'library-level mutable default / class attribute changed: %s' % d)
+    fail('behaviour-changed', 'globals', '<global>', 'after the history %s a library-level mutable default / module global / class attribute changed: %s' %
+         (' -> '.join(label(q) for q in ops), d))
   return fails
 
 
@@ -636,18 +822,28 @@ class C12(Prop):
               'DK.History.prefix_mutates_caller']
   rule = ('random world (tree with MF / TwoRatio adaptors over ADevices with user constraint lists and Poly2D caches, SubBalanced sets, '
           'storage / thermal leaves; single leaves of every class; single adaptors) x random history (<= 12 ops quick, <= 60 thorough) of '
-          'cost/deriv/hess/bounds/constraints/callFun/callJac/project/map/to_dict/leaf_devices+get+find/solve/step/cache_clear on the root, '
-          'sub-sets, adaptors, wrapped devices, conduits and leaves; non-trivial: the history reads constraints >= 2x, or solves/steps and '
+          'cost/deriv/hess/bounds/constraints/callFun/callJac/project/map/to_dict/leaf_devices+get+find/solve/step/utils.project/cache_clear '
+          'on the root, sub-sets, adaptors, wrapped devices, conduits and leaves, incl. child-then-parent pairs, operations on a child before its '
+          'parent is constructed, one caller-owned flow buffer rewritten in place and passed again, explicit solver options followed by default '
+          'calls, and the caller scribbling over returned arrays / lists / dicts; non-trivial: the history reads constraints >= 2x, or solves/steps and '
           'then evaluates again')
-  sizes = {'quick': 175, 'thorough': 1500}
+  sizes = {'quick': 175, 'thorough': 1200}
   assumptions = ['heap abstraction (which cells exist) is validated by T2 only: a new mutable field would be seen by T2 / the oracle, not by Lean',
-                 'SciPy SLSQP and numdifftools are exercised by the oracle, not modelled (the model only records which cells a solve reads / fills)']
+                 'SciPy SLSQP and numdifftools are exercised by the oracle, not modelled (the model only records which cells a solve reads / fills)',
+                 'solve / step / utils.project calls on models where SciPy\'s SLSQP is known to corrupt memory (more equality constraints than the '
+                 'variables it works on; vk/scipy_guard.py) are not executed: counted as scipy_unsafe_skipped (oracle) / t2_scipy_unsafe_skipped',
+                 'T2 digest ends with two tokens the model fixes at 0: "some library-level mutable global / default / class attribute changed" and '
+                 '"some device object\'s instance fields changed" — any new mutable state in the library shows up as a correspondence disagreement']
 
   t2_ops = 0
   t2_truncated = 0
+  stats = {'scipy_unsafe_skipped': 0}
 
   def extra_evidence(self):
-    return {'history_ops_compared': self.t2_ops, 'histories_truncated_at_a_raising_evaluation': self.t2_truncated}
+    return {'history_ops_compared': self.t2_ops, 'histories_truncated_at_a_raising_evaluation': self.t2_truncated,
+            'scipy_unsafe_skipped': self.stats['scipy_unsafe_skipped'], 't2_scipy_unsafe_skipped': self.t2_skipped}
+
+  t2_skipped = 0
 
   def corpus(self):
     return [{'kind': 'ctor-probe'}]
@@ -669,11 +865,11 @@ class C12(Prop):
     ex = Exec(case, clear=True)
     got = ex.stream()
     line = ex.model_line()
-    self.t2_ops += ex.ran; self.t2_truncated += (1 if ex.ran < len(case['ops']) else 0)
-    return [Op(line, lambda: got, 0, 'history tokens (%d ops)' % ex.ran)]
+    self.t2_ops += len(ex.kept); self.t2_truncated += (1 if ex.truncated else 0); self.t2_skipped += ex.skipped
+    return [Op(line, lambda: got, 0, 'history tokens (%d ops)' % len(ex.kept))]
 
   def oracle(self, case):
-    return run_oracle(case)
+    return run_oracle(case, self.stats)
 
   def nontrivial(self, case):
     if case.get('kind') in ('ctor-probe', 'regions'):
